@@ -214,7 +214,12 @@ type c06Log struct {
 	universe      map[string]bool
 }
 
-func execC06(p *drv.Plan) *Out { return execC06x(p, nil) }
+func execC06(p *drv.Plan) *Out {
+	if p.Mode == "commit-window" {
+		return execC06Window(p)
+	}
+	return execC06x(p, nil)
+}
 
 func execC06x(p *drv.Plan, lg *c06Log) *Out {
 	out := &Out{Evals: 1, Probes: map[string]int{}, Stats: map[string]int{}, Faults: map[string]int{}}
@@ -953,6 +958,7 @@ func init() {
 		"goroutine scheduling": "real goroutines, order decided by the simulated Scheduler at guarded hook points, lock-free storage calls and harness operation boundaries",
 		"clock":                "simulated (the pruner's two sleeps)",
 		"storage":              "SimDB",
+		"real readers (mode commit-window)": "real goroutines queued on the library's own locks; the locks decide the order, the harness only waits for 'blocked or done'",
 		"race detection":       "Go race detector (race build); the scheduler's hand-off and the harness's shared integers are hidden from it, so it reports exactly the accesses iavl's own synchronisation does not order",
 	},
 		Assumptions: []string{
@@ -961,7 +967,15 @@ func init() {
 			"expected contents of every version are computed from the writer's literal steps before the tasks start",
 			"seeded schedule search, not exhaustive",
 		},
-		Rule: "one evaluation = one concurrent run: a writer task (Set/Remove/SaveVersion/DeleteVersionsTo, synchronous or asynchronous pruning, optionally inside the SetCommitting bracket), 1-3 reader tasks (GetImmutable of the latest / oldest / a seeded retained version, then Get/Has/GetWithIndex/GetByIndex/Iterator/IterateRange/GetProof/GetVersioned/Export, some exports held open as pins while the writer asks to delete the version) and iavl's own pruner/exporter goroutines, interleaved by the seeded scheduler; every read must equal the precomputed contents of its version, proofs must verify against its root, export streams must be complete, pinned versions must not be deleted, no panic, no deadlock, and (race build) no data race; distinct = plan digest; non-trivial = >=2 task switches after >=1 commit; states_distinct = distinct (task, yield point, next task) adjacencies",
-		Gen:  genC06,
+		Rule: "one evaluation = one concurrent run: a writer task (Set/Remove/SaveVersion/DeleteVersionsTo, synchronous or asynchronous pruning, optionally inside the SetCommitting bracket), 1-3 reader tasks (GetImmutable of the latest / oldest / a seeded retained version, then Get/Has/GetWithIndex/GetByIndex/Iterator/IterateRange/GetProof/GetVersioned/Export, some exports held open as pins while the writer asks to delete the version) and iavl's own pruner/exporter goroutines, interleaved by the seeded scheduler; every read must equal the precomputed contents of its version, proofs must verify against its root, export streams must be complete, pinned versions must not be deleted, no panic, no deadlock, and (race build) no data race; distinct = plan digest; non-trivial = >=2 task switches after >=1 commit. One run in sixteen is of mode commit-window (no scheduler): right after every physical write of every SaveVersion a REAL reader goroutine is started on the version being committed (GetImmutable, Get/Has of <=12 probe keys, full Iterator, Hash) and the writer waits until it is blocked inside a lock acquisition (goroutine stack inspection) or has finished; before publication the writer collects its readers; a reader that is handed the version must read exactly it; states_distinct = distinct (task, yield point, next task) adjacencies",
+		Gen: func(seed uint64, run int, tier string) *drv.Plan {
+			p := genC06(seed, run, tier)
+			if run%16 == 5 {
+				// real readers queued on the library's locks inside every commit (c06window.go)
+				p.Mode = "commit-window"
+				p.Config.AsyncPrune, p.Config.QuantumUs = false, 0
+			}
+			return p
+		},
 		Exec: execC06})
 }
